@@ -352,9 +352,12 @@ Qed.
 Lemma par_upd_pgs w o (f : ent -> list grp) y : par (E (upd w o (fun r => set_pgs r (f r))) y) = par (E w y).
 Proof. simpl. destruct (Nat.eqb y o) eqn:Ey; [apply Nat.eqb_eq in Ey; subst y|]; reflexivity. Qed.
 
+Lemma fold_prc_inv3 c p es : forall w, inv3 w -> inv3 (fold_left (fun w e => parent_remove_child c w p e) es w).
+Proof. induction es as [|e r IH]; intros w I; simpl; [exact I | apply IH, parent_remove_child_inv3, I]. Qed.
+
 Lemma step_fsync c w a : inv3 w -> fsync (fst (step c w a)).
 Proof.
-  intros [H [P F]]. destruct a as [p|p|o|o ds|g ds|e b|e|e| |k|e]; unfold step.
+  intros [H [P F]]. destruct a as [p|p|o|o ds|g ds|e b|e|e| |k|e|es]; unfold step.
   - destruct (attachedb w p && kind_eqb (ekind (E w p)) KGroup) eqn:G; [|exact F]. cbn [fst].
     apply andb_true_iff in G as [Ga _]. apply fsync_create; [exact H | exact F | apply attachedb_lt; exact Ga].
   - destruct (attachedb w p && kind_eqb (ekind (E w p)) KGroup) eqn:G; [|exact F]. cbn [fst].
@@ -426,6 +429,8 @@ Proof.
     destruct (pg_list_ok c); [apply (fsync_same w); try reflexivity; exact F | destruct (is_nil _); exact F].
   - destruct (Nat.ltb e (n w)); [|exact F]. destruct (memb e (reg w)); [|exact F]. destruct (memb e (held w)); [exact F|].
     cbn [fst]. apply (fsync_same w); try reflexivity. exact F.
+  - destruct es as [|e0 r]; [exact F|]. destruct (forallb _ (e0 :: r)); [|exact F]. cbn [fst].
+    apply (fold_prc_inv3 c (par (E w e0)) (e0 :: r) w (conj H (conj P F))).
 Qed.
 
 Lemma fsync_init : fsync init.
